@@ -51,6 +51,13 @@ def gen_cases(seed, tier):
         n = rnd.randint(1, 14)
         s = ''.join(rnd.choice(toks) for _ in range(n))
         cases.append(_case(s, rnd.choice(OFFSETS), 'err'))
+    # the same through the other documented ways of starting a parse (a parser object of another kind, the
+    # pylatexenc-2 methods), from every start position; token-level faults included (real code only)
+    toks2 = toks + ['\\', '\\begin', '\\end ', '\\begin x']
+    for _ in range(250 if tier == 'quick' else 3000):
+        n = rnd.randint(1, 8)
+        s = ''.join(rnd.choice(toks2) for _ in range(n))
+        cases.append(_case(s, rnd.choice(OFFSETS[2:]), 'err-entry'))
     return cases
 
 
@@ -74,8 +81,42 @@ def _strict_error(d):
     return None
 
 
+ENTRIES = ['expression-parser', 'group-parser', 'get_latex_expression', 'get_latex_braced_group', 'get_latex_nodes',
+           'get_latex_maybe_optional_arg', 'get_token']
+
+
+def _entry_errors(d):
+    """every (entry point, start position) -> the located parse error it raises, if any"""
+    import warnings
+    from pylatexenc.latexwalker import LatexWalkerParseError
+    from pylatexenc.latexnodes.parsers import LatexExpressionParser, LatexDelimitedGroupParser
+    out = []
+    s = d['s']
+    with warnings.catch_warnings():
+        warnings.simplefilter('ignore')
+        for entry in ENTRIES:
+            for pos in range(len(s) + 1):
+                w = _walker(d)
+                try:
+                    if entry == 'expression-parser':
+                        w.parse_content(LatexExpressionParser(), token_reader=w.make_token_reader(pos=pos))
+                    elif entry == 'group-parser':
+                        w.parse_content(LatexDelimitedGroupParser(delimiters=('{', '}')), token_reader=w.make_token_reader(pos=pos))
+                    elif entry == 'get_token':
+                        w.get_token(pos)
+                    else:
+                        getattr(w, entry)(pos)
+                except LatexWalkerParseError as e:
+                    out.append((entry, pos, e))
+                except Exception:
+                    pass                     # other exception classes are C05's / C16's business
+    return out
+
+
 def impl(c):
     d = c['desc']
+    if d['kind'] == 'err-entry':
+        return 'NOERR'
     if d['kind'] == 'err':
         e = _strict_error(d)
         if e is None or e.pos is None:
@@ -86,7 +127,7 @@ def impl(c):
 
 
 def same(m, i, c):
-    if c['desc']['kind'] != 'err':
+    if c['desc']['kind'] not in ('err', 'err-entry'):
         return m == i
     if i == 'NOERR':
         return True
@@ -105,6 +146,16 @@ def _expected(d, p):
 
 def oracle(c):
     d = c['desc']
+    if d['kind'] == 'err-entry':
+        for entry, pos, e in _entry_errors(d):
+            if e.pos is None or (e.lineno is None and e.colno is None):
+                continue                 # an error that reports no line / column (raised below parse_content, e.g.
+                                         # by get_token itself) reports no wrong one
+            exp = _expected(d, e.pos)
+            if (e.lineno, e.colno) != exp:
+                return ('error-linecol-mismatch', {'entry_point': entry, 'start': pos, 'pos': e.pos,
+                                                   'observed': [e.lineno, e.colno], 'expected': list(exp)})
+        return None
     if d['kind'] == 'err':
         e = _strict_error(d)
         if e is None:
